@@ -47,6 +47,8 @@ reader's chunk size (`0` = no line is longer than a read request). -/
 structure Ann where
   ls : Bool
   chunk : Nat
+  /-- section transitions are observed as pseudo-items `T:<section>@<delivered>` (line sources) -/
+  trans : Bool := false
 
 /-- The line source hands out one line per read, a line longer than the chunk in chunk-sized pieces
 (every read request of the reader has the size of the chunk).  From `i` delivered bytes (a piece
@@ -78,21 +80,43 @@ def emit (at_ : Ann) (s : String) : DM Unit :=
       { ds with items := (s ++ s!"@{off}") :: ds.items, dsuf := suf, doff := off }
     else { ds with items := s :: ds.items }
 
-/-- `while let Some(x) = s.next()? { items.push(x) }` -/
+/-- `while let Some(x) = s.next()? { items.push(x) }`, at most `lim` items (second argument; the
+first is fuel). -/
 def drain {α : Type} (at_ : Ann) (next : St → PM (Option α × St)) (sh : α → String) :
-    Nat → St → DM St
-  | 0, _ => throw "E:panic"
-  | f + 1, s => do
+    Nat → Nat → St → DM St
+  | 0, _, _ => throw "E:panic"
+  | _, 0, s => pure s
+  | f + 1, lim + 1, s => do
     match ← step (next s) with
-    | (some a, s') => emit at_ (sh a); drain at_ next sh f s'
+    | (some a, s') => emit at_ (sh a); drain at_ next sh f lim s'
     | (none, s') => pure s'
 
-def drainSymbols (at_ : Ann) (p : Parser) : Nat → DM Unit
-  | 0 => throw "E:panic"
-  | f + 1 => do
+def drainSymbols (at_ : Ann) (p : Parser) : Nat → Nat → DM Unit
+  | 0, _ => throw "E:panic"
+  | _, 0 => pure ()
+  | f + 1, lim + 1 => do
     match ← step (nextSymbol p) with
-    | some s => emit at_ (showSymbol s); drainSymbols at_ p f
+    | some s => emit at_ (showSymbol s); drainSymbols at_ p f lim
     | none => pure ()
+
+/-- A section transition returned: the look-ahead ghost at that moment is observed like an item's
+(`T:<section>@<delivered>`), for line sources only. -/
+def emitT (at_ : Ann) (name : String) : DM Unit :=
+  if at_.trans then emit at_ s!"T:{name}" else pure ()
+
+/-- `mode=stream | skip | m<mask>[.<n>]`: how many items the driver takes from section `i`
+(`none` = all; same table as `eng_aiger.rs::mode_limits`). -/
+def modeLimit (mode : String) (i : Nat) : Option Nat :=
+  if mode == "stream" then none
+  else if mode == "skip" then (if i == 9 then none else some 0)
+  else match mode.toList with
+    | 'm' :: rest =>
+      let (mask, n) := match (String.ofList rest).splitOn "." with
+        | [a, b] => (a.toNat?.getD 0, b.toNat?)
+        | [a] => (a.toNat?.getD 0, none)
+        | _ => (0, some 0)
+      if (mask >>> i) % 2 == 1 then n else some 0
+    | _ => some 0
 
 def midItems (o b c : List Nat) (j : List (List Nat)) (f : List Nat) : List String :=
   o.map (s!"O:{·}") ++ b.map (s!"B:{·}") ++ c.map (s!"C:{·}") ++ j.map (s!"JS:{·.length}") ++
@@ -116,33 +140,47 @@ def orderedItems (a : OrderedAig) : List String :=
     a.gates.map (fun g => s!"A:{g.in0}:{g.in1}") ++
     a.symbols.map showSymbol ++ [showComment a.comment]
 
-/-- The whole drive in streaming (`stream = true`) or skipping mode. -/
-def driveStream (bin : Bool) (l : LitTy) (stream : Bool) (at_ : Ann) : DM Unit := do
+/-- The whole drive through the streaming interface; `lim i` = number of items taken from section
+`i` before the next transition is called (`none` = all of them). -/
+def driveStream (bin : Bool) (l : LitTy) (lim : Nat → Option Nat) (at_ : Ann) : DM Unit := do
   let p ← step (Parser.new bin l)
   emit at_ (showHeader p.header)
-  let dr {α : Type} (next : St → PM (Option α × St)) (sh : α → String) (s : St) : DM St :=
-    if stream then drain at_ next sh (s.left + 1) s else pure s
-  let s : St ← if bin then pure { p } else dr nextInput (s!"I:{·}") p.inputs
+  let dr {α : Type} (i : Nat) (next : St → PM (Option α × St)) (sh : α → String) (s : St) : DM St :=
+    drain at_ next sh (s.left + 1) ((lim i).getD (s.left + 1)) s
+  let s : St ← if bin then pure { p } else do
+    let s := p.inputs
+    emitT at_ "inputs"
+    dr 0 nextInput (s!"I:{·}") s
   let s ← step (toLatches s)
-  let s ← if bin then dr nextLatchBin (fun l => s!"L:{l.next}:{showInit l.init}") s
-          else dr nextLatchAscii (fun l => s!"L:{l.state}:{l.next}:{showInit l.init}") s
+  emitT at_ "latches"
+  let s ← if bin then dr 1 nextLatchBin (fun l => s!"L:{l.next}:{showInit l.init}") s
+          else dr 1 nextLatchAscii (fun l => s!"L:{l.state}:{l.next}:{showInit l.init}") s
   let s ← step (toOutputs s)
-  let s ← dr nextOutput (s!"O:{·}") s
+  emitT at_ "outputs"
+  let s ← dr 2 nextOutput (s!"O:{·}") s
   let s ← step (toBad s)
-  let s ← dr nextBad (s!"B:{·}") s
+  emitT at_ "bad"
+  let s ← dr 3 nextBad (s!"B:{·}") s
   let s ← step (toConstraints s)
-  let s ← dr nextConstraint (s!"C:{·}") s
+  emitT at_ "constraints"
+  let s ← dr 4 nextConstraint (s!"C:{·}") s
   let s ← step (toJusticeSizes s)
-  let s ← dr nextJusticeSize (s!"JS:{·}") s
+  emitT at_ "justice"
+  let s ← dr 5 nextJusticeSize (s!"JS:{·}") s
   let s ← step (toJusticeLits s)
-  let s ← dr nextJusticeLit (s!"J:{·}") s
+  emitT at_ "jlits"
+  let s ← dr 6 nextJusticeLit (s!"J:{·}") s
   let s ← step (toFairness s)
-  let s ← dr nextFairness (s!"F:{·}") s
+  emitT at_ "fairness"
+  let s ← dr 7 nextFairness (s!"F:{·}") s
   let s ← step (toAndGates s)
-  let s ← if bin then dr nextAndGateBin (fun g => s!"A:{g.in0}:{g.in1}") s
-          else dr nextAndGateAscii (fun g => s!"A:{g.out}:{g.in0}:{g.in1}") s
+  emitT at_ "gates"
+  let s ← if bin then dr 8 nextAndGateBin (fun g => s!"A:{g.in0}:{g.in1}") s
+          else dr 8 nextAndGateAscii (fun g => s!"A:{g.out}:{g.in0}:{g.in1}") s
   let p ← step (toSymbols s)
-  drainSymbols at_ p ((← get).lr.v.rest.length + 2)
+  emitT at_ "symbols"
+  let fuel := (← get).lr.v.rest.length + 2
+  drainSymbols at_ p fuel ((lim 9).getD fuel)
   let c ← step (comment p)
   emit at_ (showComment c)
 
@@ -248,8 +286,8 @@ def runAigerCase (line : String) : String × String :=
   let (data, fault) := match (field fs "k").toNat? with
     | some k => (full.take k, true)
     | none => (full, false)
-  let at_ : Ann := { ls, chunk := fieldNat fs "c" }
-  let act := if mode == "parse" then driveParse bin l at_ else driveStream bin l (mode == "stream") at_
+  let at_ : Ann := { ls, chunk := fieldNat fs "c", trans := ls }
+  let act := if mode == "parse" then driveParse bin l at_ else driveStream bin l (modeLimit mode) at_
   let (r, ds) := (act.run).run { lr := LR.init data fault, dsuf := data }
   let fin := match r with
     | .ok () => "END"
@@ -259,8 +297,10 @@ def runAigerCase (line : String) : String × String :=
   let nsyms := (items.filter (·.startsWith "S:")).length
   let ngates := (items.filter (·.startsWith "A:")).length
   let cmt := items.any (fun s => s.startsWith "K:" && !s.startsWith "K:none")
-  let twin := if !ls && data.length ≤ 65536 then runTwinCheck bin l mode data fault items fin else ""
+  -- the twin knows the three plain modes
+  let plain := mode == "stream" || mode == "skip" || mode == "parse"
+  let twin := if !ls && plain && data.length ≤ 65536 then runTwinCheck bin l mode data fault items fin else ""
   (digest items fin ++ wchk ++ twin,
-   s!"twin={b2s (!ls && data.length ≤ 65536)} fmt={fmtS} ty={field fs "ty"} mode={mode} items={items.length} gates={ngates} syms={nsyms} cmt={b2s cmt} fin={fin.take 5} fault={b2s fault} ls={b2s ls} w={field fs "w"}")
+   s!"twin={b2s (!ls && plain && data.length ≤ 65536)} fmt={fmtS} ty={field fs "ty"} mode={mode} items={items.length} gates={ngates} syms={nsyms} cmt={b2s cmt} fin={fin.take 5} fault={b2s fault} ls={b2s ls} w={field fs "w"}")
 
 end Driver
